@@ -17,7 +17,7 @@ EXPLANATION = (
 ASSUMPTIONS = ["pika::memory::intrusive_ptr copy/move/assign only affect the token reference count (intrusive_ptr_add_ref/release)",
                "std::atomic operations are the only accesses to state_"]
 THOROUGH_CONFIGS = [["-UNDEBUG", "-DPIKA_DEBUG"]]
-FLOORS = {"C14.R10": 5, "C14.R9": 12, "C14.R1": 6, "C14.R2": 6, "C14.R3": 5, "C14.R4": 8, "C14.R5": 6, "C14.R6": 4, "C14.R7": 8, "C14.R8": 3}
+FLOORS = {"C14.R11": 3, "C14.R10": 5, "C14.R9": 12, "C14.R1": 6, "C14.R2": 6, "C14.R3": 5, "C14.R4": 8, "C14.R5": 6, "C14.R6": 4, "C14.R7": 8, "C14.R8": 3}
 
 SS = "pika::detail::stop_state"
 TRY_GUARDS = ("pika::detail::scoped_lock_if_not_stopped", "pika::detail::scoped_lock_and_request_stop")
@@ -51,6 +51,9 @@ def run(rep, tier):
              "stop-state lock is released or the function returns (N == nullptr excepted); the dequeued callback is marked unlinked (prev_ = nullptr). "
              "Otherwise a later remove_callback unlinks through a stale address - it writes into another (possibly destroyed) callback and leaves the node in "
              "the list: request_stop runs a callback whose destructor has returned")
+    rep.rule("C14.R11", "K7 (evaluated on sample words): the predicates over the packed state word read exactly their own field whatever the other fields hold - "
+             "stop_requested(w) <=> stop bit, is_locked(w) <=> lock bit, stop_possible(w) <=> stop bit or source count != 0 (not the token count, not the lock bit: "
+             "the lock bit is set while any thread registers or removes a callback)")
     rep.rule("C14.R2", "K4: every CAS on state_ in lock_and_request_stop/lock_if_not_stopped sees !stop_requested(word) established since the word's last (re)load; flags ORed as required; true only after CAS success")
     rep.rule("C14.R3", "K1: callbacks_ accessed and list helpers called only with the stop_state lock held")
     rep.rule("C14.R4", "K2/K6: callbacks run unlocked after being unlinked; finished flag published with release; execute() only from the three known sites; remove_callback waits unless on the signalling thread")
@@ -380,6 +383,7 @@ def run(rep, tier):
 
     # ---- R10: the callback list stays a consistent doubly-linked list
     r10_rules(rep, F, get)
+    word_predicates(rep, F, c)
 
     # ---- R5 special members of stop_source
     srec = F.record("pika::stop_source")
@@ -862,3 +866,59 @@ def r10_rules(rep, F, get):
     else:
         rep.bad("C14.R10", rs, rs.loc, "dequeued-not-marked", "request_stop runs a dequeued callback without marking it unlinked (prev_ = nullptr): its destructor unlinks it a second "
                 "time through a stale address instead of waiting for the callback to finish")
+
+
+def word_predicates(rep, F, c):
+    from engine.kinds import eval_tree, Unknown, expand_locals
+    SSq = "pika::detail::stop_state"
+    M = {"tok": c["token_ref_mask"], "stop": c["stop_requested_flag"], "src": c["source_ref_mask"], "lock": c["locked_flag"],
+         "tok1": c["token_ref_increment"], "src1": c["source_ref_increment"]}
+    spec = {"stop_requested": lambda w: (w & M["stop"]) != 0, "is_locked": lambda w: (w & M["lock"]) != 0,
+            "stop_possible": lambda w: (w & M["stop"]) != 0 or (w & M["src"]) != 0}
+    fields = [0, M["tok1"], 3 * M["tok1"], M["tok"]]
+    words = []
+    for t in fields:
+        for st in (0, M["stop"]):
+            for sr in (0, M["src1"], 2 * M["src1"], M["src"]):
+                for lk in (0, M["lock"]):
+                    words.append(t | st | sr | lk)
+    preds = {}
+    for f in F.fns:
+        short = f.qname.rsplit("::", 1)[-1]
+        if f.parent == -1 and f.qname.startswith(SSq + "::") and short in spec and len(f.params) == 1 and "int" in str(f.params[0].get("type", "")):
+            preds[short] = f
+    if set(preds) != set(spec):
+        raise AnalysisBroken("stop_state: word predicates not found (%s)" % sorted(preds))
+
+    def value(name, w, depth=0):
+        f = preds[name]
+        rets = [e for _, _, e in f.all_events() if e.get("k") == "return" and e.get("e") is not None]
+        if len(rets) != 1 or depth > 3:
+            raise AnalysisBroken("stop_state::%s: expected a single return expression" % name)
+
+        def h(e, env):
+            if e.get("k") == "call" and callee_short(e) in preds and len(e.get("args") or []) == 1:
+                return value(callee_short(e), eval_tree(e["args"][0], env), depth + 1)
+            raise Unknown(T(e))
+        env = {f.params[0]["name"]: w, "$call": h}
+        for k_, v_ in c.items():
+            env[SSq + "::" + k_] = v_
+            env["stop_state::" + k_] = v_
+            env[k_] = v_
+        return bool(eval_tree(expand_locals(f, rets[0]["e"]), env))
+    for name in sorted(spec):
+        wrong = None
+        for w in words:
+            try:
+                got = value(name, w)
+            except Unknown as ex:
+                raise AnalysisBroken("stop_state::%s not evaluable: %s" % (name, ex))
+            if got != spec[name](w) and wrong is None:
+                wrong = (w, got)
+        if wrong:
+            w, got = wrong
+            rep.bad("C14.R11", preds[name], preds[name].loc, "word-predicate:" + name, "stop_state::%s(0x%x) is %s (token count %d, stop bit %d, source count %d, lock bit %d; expected %s): "
+                    "the predicate reads a field that is not its own - e.g. stop_possible() answers true while another thread merely holds the state's lock" %
+                    (name, w, got, (w & M["tok"]) // M["tok1"], int((w & M["stop"]) != 0), (w & M["src"]) // M["src1"], int((w & M["lock"]) != 0), spec[name](w)))
+        else:
+            rep.ok("C14.R11", preds[name], "stop_state::%s agrees with its field on %d sample words" % (name, len(words)), sites=len(words))
